@@ -49,17 +49,26 @@ func newAdvSim(env *Env, r *hx.Rng, h specqbft.Height, nByz int, compact bool) *
 	for i := 0; i < nByz; i++ {
 		a.byz[spectypes.OperatorID(p[i]+1)] = true
 	}
+	a.addNodes(env, h, compact)
+	a.f = &Forge{env: env, r: r, h: h}
+	return a
+}
+
+// addNodes: the correct operators' cases share ONE interning table, so that value / root / message ids mean the same thing
+// in every node's case of this schedule (a multi-node replay file stays consistent across its `reset` blocks)
+func (a *advSim) addNodes(env *Env, h specqbft.Height, compact bool) {
+	shared := NewIntern(env.identifier)
+	shared.Val(badValue) // the rejected value gets the same id everywhere
 	for i := 1; i <= env.n; i++ {
 		id := spectypes.OperatorID(i)
 		nd := &SimNode{id: id, byz: a.byz[id], compact: compact}
 		if !nd.byz {
 			nd.c = newCase(env, id, h, [][]byte{badValue}, true, false, compact)
+			nd.c.in = shared
 			nd.c.emit(nd.c.resetLine(), "ok")
 		}
 		a.nodes = append(a.nodes, nd)
 	}
-	a.f = &Forge{env: env, r: r, h: h}
-	return a
 }
 
 func (a *advSim) honest() []*SimNode {
